@@ -616,7 +616,7 @@ pub fn run(ctx: &Ctx, rep: &mut Report, replay: Option<&serde_json::Value>) {
         let t: Tagged<serde_json::Value> = serde_json::from_value(v.clone()).expect("replay");
         match t.sub.as_str() {
             "ops" | "long" => run_case(ctx, rep, &t.sub, &serde_json::from_value::<ArchCase>(t.case).expect("case"), seq),
-            other if other == "bytes" || other == "corpus" || other.starts_with("fuzz:") => run_case(ctx, rep, other, &serde_json::from_value::<Hex>(t.case).expect("case"), bytes),
+            other if other == "bytes" || other.starts_with("corpus:") || other.starts_with("fuzz:") => run_case(ctx, rep, other, &serde_json::from_value::<Hex>(t.case).expect("case"), bytes),
             other => panic!("unknown sub {}", other),
         }
         return;
